@@ -138,6 +138,12 @@ func c07History(r *hx.Run, w *W, ps *plans, rnd *rand.Rand, in c07Inst, hi int) 
 			}
 			now := w.Clock.Advance(st.adv)
 			m.normalise(now)
+			if si > 0 && hi%3 == 1 && rnd.Intn(2) == 0 {
+				// the unchanged configuration is applied again (any unrelated configuration change does that):
+				// markers and entries of the surviving caches are kept
+				w.apply(r)
+				r.Add("configuration_reapplied_inside_a_period", 1)
+			}
 			if in.store && rnd.Intn(2) == 0 {
 				for k := 0; k < 24; k++ {
 					w.Cl.Get(in.addr, "c07.example", fmt.Sprintf("/c07fill/%d", k))
